@@ -139,6 +139,7 @@ let put_failure = function
   | FailRead p -> L [A "read"; put_path p]
   | FailMismatch p -> L [A "mismatch"; put_path p]
   | FailPanic p -> L [A "panic"; put_path p]
+  | FailConflict p -> L [A "conflict"; put_path p]
   | FailIo (o, e) -> L [A "io"; put_mop o;
       A (match e with ENOENT -> "ENOENT" | EEXIST -> "EEXIST" | ENOTEMPTY -> "ENOTEMPTY" | ENOTDIR -> "ENOTDIR"
                     | EISDIR -> "EISDIR" | EINVAL -> "EINVAL" | EINJECTED -> "EINJECTED")]
